@@ -74,6 +74,38 @@ var transformers = []modeling.Transformer{
 	gausops.ColorGradingLutTransformer{}, gausops.ScaleTransformer{},
 }
 
+// package-level functions whose first parameter is the mesh they work on
+// (the function forms behind the transformers, and a few that have no
+// transformer); called by reflection like the methods
+var meshFuncs = []struct {
+	name string
+	fn   reflect.Value
+}{
+	{"meshops.CenterFloat3Attribute", reflect.ValueOf(meshops.CenterFloat3Attribute)},
+	{"meshops.CropFloat3Attribute", reflect.ValueOf(meshops.CropFloat3Attribute)},
+	{"meshops.FilterFloat1", reflect.ValueOf(meshops.FilterFloat1)},
+	{"meshops.FilterFloat3", reflect.ValueOf(meshops.FilterFloat3)},
+	{"meshops.FlatNormals", reflect.ValueOf(meshops.FlatNormals)},
+	{"meshops.FlipTriangleWinding", reflect.ValueOf(meshops.FlipTriangleWinding)},
+	{"meshops.LaplacianSmooth", reflect.ValueOf(meshops.LaplacianSmooth)},
+	{"meshops.LaplacianSmoothAlongAxis", reflect.ValueOf(meshops.LaplacianSmoothAlongAxis)},
+	{"meshops.NormalizeAttribute3D", reflect.ValueOf(meshops.NormalizeAttribute3D)},
+	{"meshops.RemoveNullFaces3D", reflect.ValueOf(meshops.RemoveNullFaces3D)},
+	{"meshops.RemovedUnreferencedVertices", reflect.ValueOf(meshops.RemovedUnreferencedVertices)},
+	{"meshops.RotateAttribute3D", reflect.ValueOf(meshops.RotateAttribute3D)},
+	{"meshops.ScaleAttribute3D", reflect.ValueOf(meshops.ScaleAttribute3D)},
+	{"meshops.ScaleAttributeAlongNormal", reflect.ValueOf(meshops.ScaleAttributeAlongNormal)},
+	{"meshops.SliceByPlaneWithAttribute", reflect.ValueOf(meshops.SliceByPlaneWithAttribute)},
+	{"meshops.SmoothNormals", reflect.ValueOf(meshops.SmoothNormals)},
+	{"meshops.SmoothNormalsImplicitWeld", reflect.ValueOf(meshops.SmoothNormalsImplicitWeld)},
+	{"meshops.SplitOnUniqueMaterials", reflect.ValueOf(meshops.SplitOnUniqueMaterials)},
+	{"meshops.TranslateAttribute3D", reflect.ValueOf(meshops.TranslateAttribute3D)},
+	{"meshops.Unweld", reflect.ValueOf(meshops.Unweld)},
+	{"meshops.VertexColorSpace", reflect.ValueOf(meshops.VertexColorSpace)},
+	{"gausops.RotateAttribute", reflect.ValueOf(gausops.RotateAttribute)},
+	{"gausops.Scale", reflect.ValueOf(gausops.Scale)},
+}
+
 // argGen builds argument values of a given type from the choice stream.
 type argGen struct {
 	c choice.Chooser
@@ -129,8 +161,13 @@ func (g *argGen) material() modeling.Material {
 	m := modeling.DefaultColorMaterial(color.RGBA{uint8(g.c.Intn("arg:col", 256)), 10, 20, 255})
 	m.Name = name
 	if choice.Bool(g.c, "arg:tex") {
-		u := "tex.png"
+		// file names as users have them, not necessarily canonical
+		u := []string{"tex.png", " textures\\wood\\albedo.png ", "a b.png\n", "./t/../tex.png", "TEX.PNG"}[g.c.Intn("arg:uri", 5)]
 		m.ColorTextureURI = &u
+		if choice.Bool(g.c, "arg:normaltex") {
+			n := "n " + u
+			m.NormalTextureURI = &n
+		}
 	}
 	return m
 }
@@ -403,7 +440,61 @@ func safely(f func()) (panicked string) {
 func genOp(c choice.Chooser, shape modeling.Mesh, pool []modeling.Mesh, unsupported map[string]bool, counts map[string]int) op {
 	g := &argGen{c: c, unsupported: unsupported, topo: shape.Topology()}
 	g.attrLen, g.names, g.idxLen = shapeOf(shape)
-	switch choice.Pick(c, "op:family", []int{16, 4, 2, 5, 9}) {
+	switch choice.Pick(c, "op:family", []int{16, 4, 2, 5, 9, 4, 2}) {
+	case 5: // a package-level function taking the mesh first
+		mf := meshFuncs[c.Intn("op:func", len(meshFuncs))]
+		ft := mf.fn.Type()
+		var args []reflect.Value
+		for i := 1; i < ft.NumIn(); i++ {
+			v, ok := g.value(ft.In(i), mf.name, pool)
+			if !ok {
+				counts["uncovered:"+mf.name]++
+				return op{Name: mf.name + "(uncovered)", Run: func(modeling.Mesh) (*modeling.Mesh, string) { return nil, "uncovered" }}
+			}
+			args = append(args, v)
+		}
+		pickOut := c.Intn("op:func-out", 4)
+		return op{Name: mf.name, Run: func(recv modeling.Mesh) (*modeling.Mesh, string) {
+			var outs []reflect.Value
+			if p := safely(func() { outs = mf.fn.Call(append([]reflect.Value{reflect.ValueOf(recv)}, args...)) }); p != "" {
+				return nil, "panic: " + p
+			}
+			var ms []modeling.Mesh
+			for _, o := range outs {
+				switch {
+				case o.Type() == tMesh:
+					ms = append(ms, o.Interface().(modeling.Mesh))
+				case o.Kind() == reflect.Slice && o.Type().Elem() == tMesh:
+					ms = append(ms, o.Interface().([]modeling.Mesh)...)
+				}
+			}
+			if len(ms) == 0 {
+				return nil, ""
+			}
+			r := ms[pickOut%len(ms)]
+			return &r, ""
+		}}
+	case 6: // a new primitive (its tables and caches are shared with earlier ones)
+		var m modeling.Mesh
+		name := ""
+		sides := 3 + c.Intn("prim:sides", 3)
+		h := float64(1 + c.Intn("prim:height", 3))
+		rad := []float64{0.5, 1}[c.Intn("prim:radius", 2)]
+		switch c.Intn("prim:kind", 6) {
+		case 0:
+			m, name = primitives.Cone{Sides: sides, Height: h, Radius: rad}.ToMesh(), "primitives.Cone"
+		case 1:
+			m, name = primitives.Cylinder{Sides: sides, Height: h, Radius: rad}.ToMesh(), "primitives.Cylinder"
+		case 2:
+			m, name = primitives.Circle{Sides: sides, Radius: rad}.ToMesh(), "primitives.Circle"
+		case 3:
+			m, name = primitives.UVSphere(rad, 2+c.Intn("prim:rows", 2), sides), "primitives.UVSphere"
+		case 4:
+			m, name = primitives.Cube{Height: h, Width: rad, Depth: 1, UVs: primitives.DefaultCubeUVs()}.Welded(), "primitives.Cube.Welded"
+		default:
+			m, name = primitives.UnitCube(), "primitives.UnitCube"
+		}
+		return op{Name: name, Run: func(modeling.Mesh) (*modeling.Mesh, string) { return &m, "" }}
 	case 4: // Append of a pool member with the same topology (the common derivation)
 		var same []modeling.Mesh
 		for _, p := range pool {
